@@ -78,6 +78,10 @@ def closure_insert_order(ctx: Ctx, rs: RuleSet, mk):
   for n in own_nodes:
     if isinstance(n, ast.Call) and unparse(n.func).endswith('FunctionType'):
       clos = kwarg(n, 'closure')
+      if isinstance(clos, ast.Call) and isinstance(
+          clos.func, ast.Name) and clos.func.id in ('tuple', 'list') and len(
+              clos.args) == 1:
+        clos = clos.args[0]  # tuple(<the list the cells were inserted into>)
   if clos is None or not inserts:
     raise AnalysisError('make_auto_config: closure construction not found')
   inserts = [c for c in inserts if c.func.value.id == unparse(clos)]
@@ -115,10 +119,19 @@ def closure_insert_order(ctx: Ctx, rs: RuleSet, mk):
       apps = [a for a in own_nodes if isinstance(a, ast.Call) and isinstance(
           a.func, ast.Attribute) and a.func.attr == 'append' and unparse(
               a.func.value) == lst]
-      idx_first = bool(apps) and all(
-          len(a.args) == 1 and isinstance(a.args[0], ast.Tuple) and len(
-              a.args[0].elts) == 2 and _is_freevar_index(
-                  mk, a.args[0].elts[0]) for a in apps)
+      def pair_ok(el):
+        return isinstance(el, ast.Tuple) and len(
+            el.elts) == 2 and _is_freevar_index(mk, el.elts[0])
+
+      # the list starts empty or as a comprehension of such pairs
+      inits = [s_.value for s_ in own_nodes if isinstance(s_, ast.Assign) and
+               any(unparse(t) == lst for t in s_.targets)]
+      init_pairs = [i_ for i_ in inits if isinstance(i_, ast.ListComp)]
+      inits_ok = all(
+          (isinstance(i_, ast.List) and all(pair_ok(e_) for e_ in i_.elts)) or
+          (isinstance(i_, ast.ListComp) and pair_ok(i_.elt)) for i_ in inits)
+      idx_first = (bool(apps) or bool(init_pairs)) and inits_ok and all(
+          len(a.args) == 1 and pair_ok(a.args[0]) for a in apps)
       ok = (len(tnames) == 2 and [unparse(a) for a in c.args] == tnames and
             idx_first)
       why = (f'iterates sorted({lst}) of (co_freevars index, cell) pairs: '
@@ -194,8 +207,9 @@ def _is_freevar_index(mk, e) -> bool:
   """`e` is code.co_freevars.index(ID) or a local assigned exactly that."""
   def direct(x):
     return (isinstance(x, ast.Call) and isinstance(x.func, ast.Attribute) and
-            x.func.attr == 'index' and unparse(x.func.value).endswith(
-                '.co_freevars') and len(x.args) == 1)
+            x.func.attr == 'index' and unparse(
+                roles.deref(mk, x.func.value)).endswith(
+                    '.co_freevars') and len(x.args) == 1)
   if direct(e):
     return True
   if isinstance(e, ast.Name):
@@ -459,19 +473,28 @@ def run(ctx: Ctx, rs: RuleSet, tier: str):
   direct = [n for n in g.nodes() if any(
       isinstance(e, ast.Call) and unparse(e.func) == fparam
       for e in cfg_lib.walk_node(g, n))]
-  exempt_ifs = [n for n in g.nodes() if g.kind[n] == 'if' and unparse(
-      g.stmt[n].test) in (f'{fparam} is exempt',
-                          f'experimental_exemption_policy({fparam})')]
+  exempt_atoms = [e for n in g.nodes() if g.kind[n] == 'if'
+                  for e in ast.walk(g.stmt[n].test) if unparse(e) in (
+                      f'{fparam} is exempt',
+                      f'experimental_exemption_policy({fparam})')]
   if not direct:
     rs.fail(rule, f'{ch.qualname}:direct-call',
             'no exempt path calls the callable directly', ctx.loc(ch, ch.node))
+  from fdlstatic import dispatch
+
+  def exemption(v):
+    def ev(t):
+      if unparse(t) in (f'{fparam} is exempt',
+                        f'experimental_exemption_policy({fparam})'):
+        return v
+      return None
+    return ev
+
+  not_exempt = dispatch.reach_atoms(g, exemption(False))
   for n in direct:
-    ok = any(n in g.reach([x for x, lab in g.succ[m] if lab == 'true'],
-                          labels=cfg_lib.NO_EXC) and
-             g.dominated_by(n, {m}, labels=cfg_lib.NO_EXC) and
-             n not in g.reach([x for x, lab in g.succ[m] if lab == 'false'],
-                              labels=cfg_lib.NO_EXC)
-             for m in exempt_ifs)
+    # never reached when no exemption test holds (whatever the tests are
+    # combined with), and there is an exemption test at all
+    ok = bool(exempt_atoms) and n not in not_exempt
     rs.check(ok, rule, f'{ch.qualname}:`{g.describe(n)[5:60]}`',
              'reached only through an exemption test' if ok else
              'the configured callable is invoked without an exemption test: '
